@@ -147,6 +147,7 @@ var panicClasses = []struct{ sub, class string }{
 	{"at least one component required", "noComponents"},
 	{"no relations specified", "noRelations"},
 	{"relation targets must be fully specified", "relUnspecified"},
+	{"specified more than once", "relTwice"},
 	{"non-relation component", "obsNonRelation"},
 	{"is not a relation component", "notRelation"},
 	{"was not specified in the filter or map", "relNotInMask"},
